@@ -101,6 +101,7 @@ type verifLoopResult struct {
 	chunks   []string
 	pending  []string
 	consumed int // events consumed (= tokens sampled)
+	cacheLen int // len(seq.cache.Inputs) at the end
 }
 
 func verifRunLoop(limit int, stops []string, script []verifEv) (res verifLoopResult, err error) {
@@ -179,6 +180,7 @@ func verifRunLoop(limit int, stops []string, script []verifEv) (res verifLoopRes
 	res.np = seq.numPredicted
 	res.pending = append([]string(nil), seq.pendingResponses...)
 	res.consumed = m.step
+	res.cacheLen = len(seq.cache.Inputs)
 	return res, nil
 }
 
@@ -288,6 +290,13 @@ func verifLoopCase(out *zzverif.Out, limit int, stops []string, script []verifEv
 	out.Case(line, fmt.Sprintf("%s np=%d out=%s pend=%s", res.reason, res.np, verifHexList(res.chunks), verifHexList(res.pending)))
 	out.Count("reason_" + res.reason)
 	verifLoopL2(out, line, stops, script, res)
+	// cache trimming next to TruncateStop (cacheKeep / cacheLenRun in the model): len(seq.cache.Inputs) at removal;
+	// the prompt of this driver is one input
+	if res.reason != "running" {
+		t3 := strings.SplitN(line, " ", 3) // loop <pinned> <limit …>
+		out.Case("cachelen "+t3[1]+" 1 "+t3[2], strconv.Itoa(res.cacheLen))
+		out.Count("cachelen_cases")
+	}
 }
 
 // verifLoopL2 evaluates the property on what the real code streamed (res.chunks = what the reader of
@@ -425,6 +434,24 @@ func verifLoopL2(out *zzverif.Out, line string, stops []string, script []verifEv
 		}
 		if !ok {
 			out.L2("not-ended-before-stop", line, fmt.Sprintf("class=%s out=%x gen=%x", class, o, g))
+		}
+		// cache trimming: after a stop string the cache keeps the prompt and exactly the tokens whose text was streamed in full
+		// (stated for scripts without empty pieces: an empty piece at the cut belongs to neither side)
+		{
+			m, cum, empty := 0, 0, false
+			for _, e := range script[:res.consumed] {
+				if e.piece == "" {
+					empty = true
+				}
+				cum += len(e.piece)
+				if cum <= len(o) {
+					m++
+				}
+			}
+			// cacheLen is observed by the loop driver only (0 = not observed: handler / multi / sched drivers)
+			if res.cacheLen > 0 && !empty && strings.HasPrefix(g, o) && res.cacheLen != 1+m {
+				out.L2("cache-not-streamed-tokens", line, fmt.Sprintf("cache=%d prompt=%d tokens_streamed_in_full=%d out=%x", res.cacheLen, 1, m, o))
+			}
 		}
 		if len(stops) == 1 && o != g[:earliest] {
 			out.L2("single-stop-output", line, fmt.Sprintf("out=%x want=%x", o, g[:earliest]))
